@@ -586,12 +586,12 @@ func conclude(res *result, wall time.Duration) int {
 	for _, s := range sigs {
 		vs := bySig[s]
 		for j, v := range vs {
-			if j >= 2 {
+			if j >= 1 {
 				break
 			}
 			path := writeReplay(v)
-			if printed < 40 {
-				fmt.Printf("VIOLATION property=%s replay=%s kind=%s sig=%q case=%s (%d with this signature): %s\n", prop, path, v.Kind, v.Sig, v.ID, len(vs), oneLine(v.Detail, 300))
+			if printed < 14 {
+				fmt.Printf("VIOLATION property=%s replay=%s kind=%s sig=%q case=%s (%d with this signature): %s\n", prop, path, v.Kind, v.Sig, v.ID, len(vs), oneLine(v.Detail, 240))
 				printed++
 			}
 		}
